@@ -3,7 +3,7 @@ CONSTANTS
   Inputs = {"I1"}
   EqOpts = {"plain", "orth"}
   SignOpts = {}
-  Settings = {"A", "B"}
+  Settings = {"A", "B", "P", "BP"}
   DefaultSetting = "A"
   MaxFiles = 1
   MaxSteps = 40
